@@ -3,14 +3,18 @@ import CbiVerif.Lemmas.TreeSim
 import CbiVerif.Lemmas.TreeDefine
 import CbiVerif.Lemmas.TreeParse
 import CbiVerif.Lemmas.TreeExec
+import CbiVerif.Lemmas.ExpandPP
 /-! # C01 — conditional inclusion matches what a real C preprocessor would do
 
 Model: `Model/Tree.lean` (`SourceTree.insert` as a zipper, `build`), `Model/Assoc.lean`
 (`ParserState.associate` as the visitor `visit/visitList`, `Platform.define` = keep first).
 Spec: `Spec/CPreproc.lean` (the flat conditional-stack machine of ISO C 6.10.1, `#define`
 overwrites, redefinition diagnostic).  The driver op `c01` executes exactly these
-definitions (`Drv/C01.lean`), instantiated with the macro table and the expression
-evaluator of `PP/*`.
+definitions (`Drv/C01.lean`), instantiated with the macro table of `PP/*` and with
+`PP.condValue` as the meaning of a controlling expression: the total macro expander
+`MX.cbiExpand` (the model of the C03 theorems) followed by the evaluator `Eval.cbiEval` (the model
+of the C02 theorems).  Nothing executed for C01 is a `partial def`; the last part of this file
+states what that composition gives (`cond_*`, `ifdef_*`).
 
 All theorems quantify over every structured program `b : Block` (arbitrary nesting depth,
 arbitrary length), every meaning of the payloads (`Sem Env` / `Lang B E`) and every
@@ -282,18 +286,159 @@ end Examples
 
 end CbiVerif.C01
 
-/-! Non-vacuity of `analyse_eq_reference` (its hypotheses hold on a concrete nested unit with
-`#define/#undef` on one path).  `evaluate`/`runExpand` are `partial` (opaque to the kernel), so this
-is checked by evaluation (`#guard`), not by `decide`; the harness observes the same on every
-well-formed generated unit. -/
+/-! ## The value of a controlling expression: one expander (C03), one evaluator (C02)
+
+`(langOf nodes).cond tbl i` is what the executed model (`analyseNodes`, `analyseFile`, the Fortran front end, and — through the
+same `PP.condValue` — the multi-file models of C04/C08/C10/C18) takes as the value of the `#if`/`#elif` of node `i` under the
+macro table `tbl`. -/
 namespace CbiVerif.C01
-open CbiVerif.PP in
-#guard
-  let text := "#if defined(A)\nint m1;\n#if B\nint m2;\n#elif A == 1\n#undef A\n#ifndef A\n#define B 2\nint m3;\n#else\nint m4;\n#endif\n#elif 1 +\nint m5;\n#endif\n#else\nint m6;\n#endif\n#if B == 2\nint m7;\n#endif\n"
-  match referenceFile text ["A=1"], analyseFile text ["A=1"] with
+open CbiVerif.PP CbiVerif.MX
+
+/-- the tokens `#ifdef X` is parsed to (`DirectiveParser.parse`: `defined ( X )`) -/
+def ifdefToks (x : Tok) : List Tok := [mkTok .ident "defined" true, mkTok .punct "(" false, x, mkTok .punct ")" false]
+/-- the tokens `#ifndef X` is parsed to (`! defined ( X )`) -/
+def ifndefToks (x : Tok) : List Tok :=
+  [mkTok .op "!" true, mkTok .ident "defined" false, mkTok .punct "(" false, x, mkTok .punct ")" false]
+
+/-- **One expander, one evaluator.**  For every node list, table and node: the value of the controlling expression in the
+executed model is the evaluation (`Eval.evaluatePP` = `Eval.cbiEval` behind CBI's exception names) of the expansion computed
+by the total step machine `MX.cbiExpand`; an exception of the expander is the failure of the directive; running out of the
+model's fuel is reported as such (excluded for object-like tables by `C03.terminates_objlike_partial`). -/
+theorem cond_is_expand_then_eval (nodes : Array PNode) (tbl : Table) (i : Nat) :
+    (langOf nodes).cond tbl i =
+      match cbiExpand tbl nodes[i]!.toks with
+      | .ok ts => CbiVerif.Eval.evaluatePP ts
+      | .error e => .error e
+      | .fuel => .error (.other "ModelOutOfFuel") :=
+  condValue_eq tbl nodes[i]!.toks
+
+/-- … and its truth value, when the expansion succeeds, is exactly the truth value the C02 evaluator `Eval.cbiEval` gives to the
+expanded tokens (flags erased: the evaluator looks at kind and spelling only) -/
+theorem cond_truth_is_cbiEval (nodes : Array PNode) (tbl : Table) (i : Nat) (ts : List Tok) (b : Bool)
+    (h : cbiExpand tbl nodes[i]!.toks = .ok ts) :
+    (langOf nodes).cond tbl i = .ok b ↔ CbiVerif.Eval.cbiEval (ts.map CbiVerif.Eval.eraseFlags) = .ok b := by
+  rw [cond_is_expand_then_eval, h]
+  exact evaluatePP_ok_iff ts b
+
+/-- FULL statement of the composition (kept visible, NOT proved; it is false for the code as it is for the same reason as
+`C03.Full`: finding D10, `#` keeps a leading blank): for every well-formed table — function-like macros, `#`, `##` included —
+the controlling expression is evaluated on tokens whose spellings are those ISO C 6.10.3 (Prosser's algorithm) assigns. -/
+def CondConforms : Prop :=
+  ∀ (cmd defs : List String) (text : String) (tbl : Table) (out : List CbiVerif.Spec.Prosser.T),
+    buildTable cmd defs = .ok tbl →
+    CbiVerif.Spec.Prosser.prosser (cmd.map CbiVerif.Spec.Prosser.cmdlineToDefine ++ defs) text = .ok out →
+    ∃ r, r.map spellTok = out.map (·.text) ∧ condValue tbl (tokenize text) = CbiVerif.Eval.evaluatePP r
+
+/-- **object-like units (model side)**: when the macro table holds only object-like macros (`TblOK`: no parameters, keyed by
+their name, no `defined` in a body — any size below the nesting limit, self- and mutually recursive definitions included) and
+the controlling expression does not use `defined`, the executed model evaluates the recursive hide-set expansion `E` of the
+expression: no expander exception, no backstop `0`, no fuel exhaustion can be the cause of the value. -/
+theorem cond_object_like_partial (nodes : Array PNode) (tbl : Table) (i : Nat) (hT : TblOK tbl) (hnd : NoDef nodes[i]!.toks)
+    (hsz : tbl.length + 2 < CbiVerif.Gen.maxLevel) :
+    (langOf nodes).cond tbl i = CbiVerif.Eval.evaluatePP (E tbl (tbl.length + 1) [] nodes[i]!.toks) := by
+  have h : cbiExpand tbl nodes[i]!.toks = .ok (E tbl (tbl.length + 1) [] nodes[i]!.toks) := by
+    unfold cbiExpand
+    exact expandWith_obj realCfg tbl hT _ hnd hsz (fuelFor tbl _) (by unfold fuelFor; omega)
+  exact condValue_of_expand tbl _ _ h
+
+/-- **object-like units (against the specification)** — the proved part of `CondConforms`: for a table of object-like macros
+without `##`/`defined` in their bodies and a controlling expression of such tokens, the executed model's value of `#if E` is
+the evaluation of a token list `r` whose spellings are exactly those of the Prosser expansion of `E` (ISO C 6.10.3.4:
+rescanning, no re-expansion of a name inside its own expansion), and its truth value is `Eval.cbiEval` of `r`.
+(Spellings, not kinds: the specification's tokens carry a coarser kind; what the evaluator does with `r` is C02's subject.) -/
+theorem cond_object_like_conforms_partial (nodes : Array PNode) (tbl : Table) (i : Nat) (hT : PlainTbl tbl)
+    (hts : ∀ t ∈ nodes[i]!.toks, PlainTok t) (hnd : NoDef nodes[i]!.toks) (hsz : tbl.length + 2 < CbiVerif.Gen.maxLevel)
+    (hfuel : nodes[i]!.toks.length * Cb (bodyMax tbl) (tbl.length + 1) < CbiVerif.Spec.Prosser.defaultFuel) :
+    ∃ r out, CbiVerif.Spec.Prosser.prosserToks (specTable tbl) (nodes[i]!.toks.map (toSpec [])) = .ok out ∧
+      r.map spellTok = out.map (·.text) ∧
+      (langOf nodes).cond tbl i = CbiVerif.Eval.evaluatePP r ∧
+      ∀ b, (langOf nodes).cond tbl i = .ok b ↔ CbiVerif.Eval.cbiEval (r.map CbiVerif.Eval.eraseFlags) = .ok b := by
+  obtain ⟨out, ho, he⟩ := E_eq_prosser tbl hT nodes[i]!.toks hts hfuel
+  have hc := cond_object_like_partial nodes tbl i hT.ok hnd hsz
+  refine ⟨_, out, ho, he.symm, hc, fun b => ?_⟩
+  rw [hc]; exact evaluatePP_ok_iff _ b
+
+/-- **`#ifdef X`** in the executed model: decided from the macro table alone.  `X` is not expanded, whatever it is defined
+as (object-like, function-like, recursive, with an empty or malformed body): no expander or evaluator failure is possible. -/
+theorem ifdef_decided_by_table (nodes : Array PNode) (tbl : Table) (i : Nat) (x : Tok) (hx : x.kind = .ident)
+    (h : nodes[i]!.toks = ifdefToks x) : (langOf nodes).cond tbl i = .ok (tbl.get x.text).isSome := by
+  have he : cbiExpand tbl (ifdefToks x) = .ok [numTok (isDefined tbl x.text) x.pw] :=
+    cbiExpand_defined_paren tbl _ _ x _ rfl rfl rfl hx rfl
+  show condValue tbl nodes[i]!.toks = _
+  rw [h, condValue_of_expand tbl _ _ he, evaluatePP_defined]
+
+/-- **`#ifndef X`** in the executed model: the negation, decided from the macro table alone -/
+theorem ifndef_decided_by_table (nodes : Array PNode) (tbl : Table) (i : Nat) (x : Tok) (hx : x.kind = .ident)
+    (h : nodes[i]!.toks = ifndefToks x) : (langOf nodes).cond tbl i = .ok (!(tbl.get x.text).isSome) := by
+  have he : cbiExpand tbl (ifndefToks x) = .ok [mkTok .op "!" true, numTok (isDefined tbl x.text) x.pw] :=
+    cbiExpand_not_defined_paren tbl _ _ _ x _ (by decide) rfl rfl rfl hx rfl
+  show condValue tbl nodes[i]!.toks = _
+  rw [h, condValue_of_expand tbl _ _ he, evaluatePP_not_defined]
+
+/-- **`#if defined X`** (no parentheses) in the executed model -/
+theorem if_defined_decided_by_table (nodes : Array PNode) (tbl : Table) (i : Nat) (dt x : Tok) (hd : dt.kind = .ident)
+    (hdt : dt.text = "defined") (hx : x.kind = .ident) (hxp : x.text ≠ "(") (h : nodes[i]!.toks = [dt, x]) :
+    (langOf nodes).cond tbl i = .ok (tbl.get x.text).isSome := by
+  have he := cbiExpand_defined_plain tbl dt x hd hdt hx hxp
+  show condValue tbl nodes[i]!.toks = _
+  rw [h, condValue_of_expand tbl _ _ he, evaluatePP_defined]
+
+/-! ### non-vacuity of the composition theorems (all kernel-checked) -/
+
+/-- the directive parser really produces `ifdefToks` / `ifndefToks` -/
+example : (parseDirective "#ifdef FOO" [1]).toOption.map (·.toks) = some (ifdefToks ⟨.ident, "FOO", true, true⟩) ∧
+    (parseDirective "# ifndef FOO" [1]).toOption.map (·.toks) = some (ifndefToks ⟨.ident, "FOO", true, true⟩) := by
+  decide +kernel
+
+/-- `cond_object_like_(conforms_)partial`: a self- and mutually recursive object-like table (C11 6.10.3.4's pattern) and the
+expression `AA == 4 || CC` satisfy every hypothesis; the model evaluates the expansion `BB … == 4 || …` (identifiers left
+over count as 0) -/
+example :
+    let tbl : Table := [("AA", ⟨"AA", none, false, false, [], [⟨.ident, "BB", false, true⟩]⟩),
+                        ("BB", ⟨"BB", none, false, false, [], [⟨.num, "4", false, true⟩]⟩),
+                        ("CC", ⟨"CC", none, false, false, [], [⟨.ident, "AA", false, true⟩, ⟨.op, "+", true, true⟩, ⟨.ident, "CC", true, true⟩]⟩)]
+    let toks : List Tok := tokenize "AA == 4 || CC"
+    plainTblb tbl = true ∧ toks.all plainTokb = true ∧ toks.all (fun t => t.text != "defined") = true ∧
+      tbl.length + 2 < CbiVerif.Gen.maxLevel ∧
+      toks.length * Cb (bodyMax tbl) (tbl.length + 1) < CbiVerif.Spec.Prosser.defaultFuel ∧
+      (match cbiExpand tbl toks with | .ok r => r.map spellTok | _ => []) = ["4", "==", "4", "||", "4", "+", "CC"] ∧
+      (condValue tbl toks).toOption = some true := by
+  decide +kernel
+
+/-- `ifdef_decided_by_table` on a function-like macro with a body that cannot even be expanded on its own -/
+example :
+    let text := "#define F(x) x ## ## x\n#ifdef F\nint a;\n#endif\n#ifndef F\nint b;\n#endif\n#if defined F\nint c;\n#endif\n"
+    (analyseFile text []).toOption.map (fun rows => (rows.filter (fun x => x.1 == .code)).map (fun x => (x.2.1, x.2.2)))
+      = some [([3], true), ([6], false), ([9], true)] := by
+  decide +kernel
+
+end CbiVerif.C01
+
+/-! Non-vacuity of `analyse_eq_reference`: its hypotheses hold on a concrete nested unit with `#define/#undef` on one path
+(`nvText`), and on a unit whose controlling expression goes through a function-like macro and a self-referential object-like
+one (`nvText2`).  Since the macro expander and the evaluator of the executed model are the total definitions `MX.cbiExpand` /
+`Eval.cbiEval`, these are kernel-checked statements (the first was a `#guard` while `runExpand` was a `partial def`); the
+harness observes the same on every well-formed generated unit.  (Almost all of the kernel's time, about 7 s, goes into the
+character-level cleaner and lexer models of `PP/CSource.lean` / `PP/Lexer.lean`, not into expansion or evaluation.) -/
+namespace CbiVerif.C01
+open CbiVerif.PP
+
+def nvText : String :=
+  "#if defined(A)\na\n#if B\nb\n#elif A==1\n#undef A\n#ifndef A\n#define B 2\nc\n#else\nd\n#endif\n#elif 1+\ne\n#endif\n#else\nf\n#endif\n#if B==2\ng\n#endif\n"
+def nvText2 : String := "#define S(x) ((x)*(x))\n#define R R+1\n#if S(B+1)==9&&R\ng\n#else\nh\n#endif\n"
+
+/-- the hypotheses of `analyse_eq_reference` hold, its conclusion is the `.ok` case, and the code lines are attributed as `want` -/
+def nvOK (text : String) (defs : List String) (want : List (List Nat × Bool)) : Bool :=
+  match referenceFile text defs, analyseFile text defs with
   | .ok r, .ok rows =>
     !r.bad && !r.unterminated && !r.diag && r.err.isNone && rows == r.rows &&
-    (rows.filter (fun x => x.1 == .code)).map (fun x => (x.2.1, x.2.2)) ==
-      [([2], true), ([4], false), ([9], true), ([11], false), ([14], false), ([17], false), ([20], true)]
+    (rows.filter (fun x => x.1 == .code)).map (fun x => (x.2.1, x.2.2)) == want
   | _, _ => false
+
+example : nvOK nvText ["A=1"]
+    [([2], true), ([4], false), ([9], true), ([11], false), ([14], false), ([17], false), ([20], true)] = true := by
+  decide +kernel
+
+example : nvOK nvText2 ["B=2"] [([4], true), ([6], false)] = true := by
+  decide +kernel
 end CbiVerif.C01
